@@ -40,6 +40,8 @@ def as_bool(v):
         return len(v) > 0
     if isinstance(v, SList):
         return len(v.items) > 0
+    if isinstance(v, SStr):
+        return v.tok != intern_str("")      # a string is falsy iff it is the empty string
     if isinstance(v, SFloat):
         return z3.Not(z3.And(fl.isfin(v), v.v == 0))
     if z3.is_expr(v):
